@@ -12,8 +12,10 @@ KNOWN = os.path.join(ROOT, "known_findings.json")
 # check against that checkout instead of /repo, with its own harness build, work and evidence directories under
 # work/alt-<name>/ -- so that checks can be developed on a clean tree while /repo is patched for a mutant evaluation.
 ALT = os.environ.get("VERIF_ALT")
+REPO = "/repo"
 if ALT:
     _name, _repo = ALT.split(":", 1)
+    REPO = _repo
     _base = os.path.join(WORK, "alt-" + _name)
     WORK = os.path.join(_base, "work")
     EVID = os.path.join(_base, "evidence")
@@ -61,6 +63,27 @@ def build_harness():
         sys.stderr.write(p.stdout[-6000:])
         raise ToolError("cargo build of the harness against /repo failed (the tree does not compile?)")
     log("harness built in %.1fs" % (time.time() - t0))
+
+
+QUERY_BIN = [None]
+
+
+def build_query_bin():
+    """The crate's own `query` program (src/main.rs), built from the tree under test into a directory of ours."""
+    if QUERY_BIN[0]:
+        return QUERY_BIN[0]
+    t0 = time.time()
+    tdir = os.path.join(WORK, "query-target")
+    exe = os.path.join(tdir, "release", "query")
+    if not (os.environ.get("VERIF_SKIP_BUILD") and os.path.exists(exe)):
+        p = subprocess.run(["cargo", "build", "--offline", "--release", "--bin", "query", "--manifest-path", os.path.join(REPO, "Cargo.toml"), "--target-dir", tdir],
+                           env=dict(os.environ, CARGO_NET_OFFLINE="true"), stdout=subprocess.PIPE, stderr=subprocess.STDOUT, text=True)
+        if p.returncode != 0 or not os.path.exists(exe):
+            sys.stderr.write(p.stdout[-4000:])
+            raise ToolError("cargo build of the `query` program failed")
+        log("`query` program built in %.1fs" % (time.time() - t0))
+    QUERY_BIN[0] = exe
+    return exe
 
 
 # --------------------------------------------------------------------------- TLC
@@ -159,7 +182,7 @@ def run_tlc(job, tier, seed, wd, extra_env=None):
 def run_harness(cases_path, wd, mode="replay"):
     res = os.path.join(wd, "results.ndjson")
     t0 = time.time()
-    p = subprocess.run([HARNESS_BIN, mode, cases_path, res], cwd=wd, env=dict(os.environ, VERIF_TIER=CURRENT_TIER[0]),
+    p = subprocess.run([HARNESS_BIN, mode, cases_path, res], cwd=wd, env=dict(os.environ, VERIF_TIER=CURRENT_TIER[0], VERIF_QUERY_BIN=QUERY_BIN[0] or ""),
                        stdout=subprocess.PIPE, stderr=subprocess.PIPE, text=True)
     if p.returncode != 0:
         raise ToolError("harness %s failed (exit %d): %s" % (mode, p.returncode, p.stderr[-2000:]))
@@ -300,6 +323,8 @@ def do_replay(prop, path):
             return 1
         print("not reproduced: the recorded execution of this program is accepted on the current tree")
         return 0
+    if rep["case"].get("t") == "repl":
+        build_query_bin()
     cp = os.path.join(wd, "cases.ndjson")
     with open(cp, "w") as f:
         f.write(json.dumps(rep["case"]) + "\n")
@@ -334,6 +359,8 @@ def do_check(prop, tier, seed, t0):
             continue
         wd = os.path.join(WORK, "%s-%s-%s" % (prop, tier, jobname))
         shutil.rmtree(wd, ignore_errors=True)
+        if job.get("query_bin"):
+            build_query_bin()
         if job.get("kind", "replay") == "replay":
             r = run_tlc(job, tier, seed, wd)
             states += r["states"]
